@@ -295,3 +295,28 @@ def _v7(P, R):
 def _v8():
     E = _ed()
     return E.f_aff(sym.IV(0), sym.IV(1)) == E.c_O
+
+
+def _curve_res(E, X, Y, Z):
+    d = E.D[0]
+    return ((-X * X + Y * Y) * Z * Z - Z * Z * Z * Z - d * X * X * Y * Y) % E.Q
+
+
+@lemma("voc_valid_def", 4, True, "definition of a valid extended representation (X:Y:Z:T): reduced coordinates, Z != 0, T*Z = X*Y, projective curve equation (mod Q)")
+def _v9(X, Y, Z, T):
+    E = _ed()
+    return E.f_valid(X, Y, Z, T) == z3.And(X >= 0, X < E.Q, Y >= 0, Y < E.Q, Z >= 0, Z < E.Q, T >= 0, T < E.Q,
+                                            Z % E.Q != 0, (T * Z - X * Y) % E.Q == 0, _curve_res(E, X, Y, Z) == 0)
+
+
+@lemma("voc_valid3_def", 3, True, "definition of the T-free part of validity")
+def _v10(X, Y, Z):
+    E = _ed()
+    return E.f_valid3(X, Y, Z) == z3.And(X >= 0, X < E.Q, Y >= 0, Y < E.Q, Z >= 0, Z < E.Q, Z % E.Q != 0, _curve_res(E, X, Y, Z) == 0)
+
+
+@lemma("voc_pt_affine", 3, True, "the point of (X:Y:Z) is the affine point (X/Z, Y/Z), with 1/Z = Z^(Q-2) mod Q")
+def _v11(X, Y, Z):
+    E = _ed()
+    zi = sym.POWMOD(Z, sym.IV(E.Q - 2), sym.IV(E.Q))
+    return z3.Implies(E.f_valid3(X, Y, Z), E.f_pt(X, Y, Z) == E.f_aff((X * zi) % E.Q, (Y * zi) % E.Q))
